@@ -24,7 +24,9 @@ def _need(c, msg):
 class RCell:
     __slots__ = ('bits', 'refs', 'special', 'type', 'mask', '_h', '_d')
 
-    def __init__(self, bits: str, refs=(), special=False):
+    def __init__(self, bits: str, refs=(), special=False, lax=False):
+        """lax: an attacker-made Merkle cell whose stored hash / depth is NOT its child's (not a valid cell; used only to describe
+        inputs that must be refused - e.g. to encode them into a bag of cells)"""
         self.bits = bits
         self.refs = tuple(refs)
         self.special = bool(special)
@@ -53,9 +55,15 @@ class RCell:
                 self.mask = 0
             elif self.type == MPROOF:
                 _need(len(bits) == 8 + 256 + 16 and len(self.refs) == 1, 'merkle proof shape')
+                raw = int(bits, 2).to_bytes(35, 'big')
+                _need(lax or (raw[1:33] == self.refs[0].hash(0) and int.from_bytes(raw[33:35], 'big') == self.refs[0].depth(0)), 'merkle proof: stored hash / depth is not the child\'s')
                 self.mask = self.refs[0].mask >> 1
             elif self.type == MUPDATE:
                 _need(len(bits) == 8 + 2 * (256 + 16) and len(self.refs) == 2, 'merkle update shape')
+                raw = int(bits, 2).to_bytes(69, 'big')
+                for i in (0, 1):
+                    _need(lax or (raw[1 + 32 * i:33 + 32 * i] == self.refs[i].hash(0) and int.from_bytes(raw[65 + 2 * i:67 + 2 * i], 'big') == self.refs[i].depth(0)),
+                          'merkle update: stored hash / depth is not the child\'s')
                 self.mask = (self.refs[0].mask | self.refs[1].mask) >> 1
             else:
                 raise RefCellError('unknown exotic type')
